@@ -167,11 +167,11 @@ def run_gen(ctx, ents, offset, what):
 
 def part_static(ctx, rng):
     thorough = ctx.tier == "thorough"
-    rots = list(range(25)) if thorough else [0, 3, 7, 12, 18, 22]
+    rots = list(range(25)) if thorough else [0, 7, 18]
     cuts = [0, 2, 3, 5] if thorough else [0, 3]
     ents = catalog.entries(name=NAMES, rot=rots, cut=cuts)
     if not thorough:
-        ents = [e for i, e in enumerate(ents) if i % 2 == 0 or e["name"].endswith("_split")]
+        ents = [e for i, e in enumerate(ents) if i % 2 == 0 or (e["name"].endswith("_split") and e["rot"] == 0)]
     elif len(ents) > 360:
         keep = [e for e in ents if e["rot"] in (0, 3, 7, 12, 18, 22)]
         rest = [e for e in ents if e["rot"] not in (0, 3, 7, 12, 18, 22)]
@@ -181,7 +181,7 @@ def part_static(ctx, rng):
     derived = []
     for mi, e in enumerate(ents, start=1):
         c0 = gen[(mi, 0, 1)]
-        if e["cut"] == 0 and not c0["polecorner"] and not c0["tie"] and len(c0["kept"]) >= 2 and len(derived) < (60 if thorough else 10):
+        if e["cut"] == 0 and not c0["polecorner"] and not c0["tie"] and len(c0["kept"]) >= 2 and len(derived) < (60 if thorough else 5):
             d = dict(e)
             d["faces"] = [e["faces"][f] for f in c0["kept"]]
             d["closed"] = False
@@ -211,7 +211,11 @@ def part_static(ctx, rng):
             cases.append({"id": "%s|sv%d" % (catalog.eid(e), sv), "idx": len(cases), "entry": e, "sv": sv, "mi": mi})
     if not cases:
         raise Machinery("no static case left")
+    import time
+
+    t0 = time.time()
     res = pmap(record_static, cases)
+    ctx.note("t_static_replay_s", round(time.time() - t0, 1))
     recs, errs = [], []
     for c, o in zip(cases, res):
         if "fatal" in o:
@@ -321,7 +325,7 @@ def gen_histories(ctx, what, **kw):
     extra = {}
     if sim:
         extra = {"simulate": sim, "depth": depth, "seed": ctx.seed + 7}
-    r = ctx.tlc_ok("PlotCache", cfg, what=what, workers=8, timeout=1500, count=not sim, **extra)
+    r = ctx.tlc_ok("PlotCache", cfg, what=what, workers=2 if sim else 8, timeout=1500, count=not sim, **extra)
     E = X.tagged_prints(r.out, ("E",))
     if len(E) != 1:
         raise Machinery("PlotCache emitted %d alphabets" % len(E))
@@ -351,12 +355,13 @@ def part_history(ctx, rng, ents, gen, cases):
     full = dict(proj=["none", "rob", "rob180"], eng=["sp", "gp"], projects=["TRUE", "FALSE"], flags="FlagsAll", kinds=["gdf", "poly", "line"])
     ctx.tlc_ok("PlotCache", pc_cfg("MechIntended", maxlen=2, edit=True, keep=False, emitfrom=9, invs=["TypeOK", "NoBad", "EntryCoherent", "NoAliasing"], **full),
                what="PlotCache(MechIntended): clauses hold on all histories of length <= 2 over the full argument domains (with caller edits)", workers=8, timeout=1500)
-    small = dict(proj=["none", "rob180"], eng=["sp", "gp"], projects=["TRUE", "FALSE"], flags="FlagsThree", kinds=["gdf", "poly", "line"])
+    small = dict(proj=["none", "rob180"], eng=["sp", "gp"] if thorough else ["sp"], projects=["TRUE", "FALSE"] if thorough else ["TRUE"],
+                 flags="FlagsThree" if thorough else "FlagsTwo", kinds=["gdf", "poly", "line"])
     ctx.tlc_ok("PlotCache", pc_cfg("MechIntended", maxlen=4 if thorough else 3, edit=True, keep=False, emitfrom=9, invs=["TypeOK", "NoBad", "EntryCoherent", "NoAliasing"], **small),
                what="PlotCache(MechIntended): clauses hold on all histories of length <= %d (seam-moving projection, both engines)" % (4 if thorough else 3), workers=8, timeout=1500)
     # the machine distinguishes the mechanisms: the observed one and the pre-5278ad57 line cache break the clauses
-    for mech, kinds in (("MechObserved", ["gdf", "poly", "line"]), ("MechLinesOld", ["line"])):
-        r = ctx.tlc("PlotCache", pc_cfg(mech, maxlen=3, edit=(mech == "MechObserved"), keep=False, emitfrom=9, invs=["NoBad"],
+    for mech, kinds in (("MechObserved", ["gdf", "poly", "line"]), ("MechLinesOld", ["line"]), ("MechDataInCache", ["gdf"]), ("MechLineAliased", ["line"])):
+        r = ctx.tlc("PlotCache", pc_cfg(mech, maxlen=3, edit=(mech in ("MechObserved", "MechLineAliased")), keep=False, emitfrom=9, invs=["NoBad"],
                                         proj=["none", "rob180"], eng=["sp"], projects=["TRUE"], flags="FlagsTwo", kinds=kinds),
                     what="PlotCache(%s) violates NoBad (expected counterexample)" % mech, workers=4, timeout=600, count=False)
         if r.violated != "NoBad":
@@ -414,17 +419,19 @@ def part_history(ctx, rng, ents, gen, cases):
         hs, n_alpha["line3"] = gen_histories(ctx, "LineCollection family, all histories of length 3", maxlen=3, edit=True, emitfrom=3,
                                              proj=["none", "rob180"], eng=["sp"], projects=["TRUE"], flags="FlagsThree", kinds=["line"])
         add(hs)
-        nsim = 400
-    hs, _ = gen_histories(ctx, "random behaviours of length 5 (-simulate)", maxlen=5, edit=True, emitfrom=5, simulate="num=%d" % nsim, depth=6,
-                          proj=["none", "rob", "rob180"], eng=["sp", "gp"], projects=["TRUE", "FALSE"], flags="FlagsAll", kinds=["gdf", "poly", "line"])
-    add(hs)
+        nsim = 120
+    hs, _ = gen_histories(ctx, "random behaviours of length 5 (-simulate)", maxlen=5, edit=True, emitfrom=5, simulate="num=%d" % (nsim // 2), depth=6,
+                          proj=["none", "rob", "rob180"] if thorough else ["none", "rob180"], eng=["sp", "gp"], projects=["TRUE", "FALSE"],
+                          flags="FlagsThree" if thorough else "FlagsTwo", kinds=["gdf", "poly", "line"])
+    hs.sort(key=lambda h: hist_key(h[0]))
+    add(hs if len(hs) <= nsim else rng.sample(hs, nsim))
     if not thorough:
         # keep the quick tier inside its budget: all predicted failures of length <= 2, a sample of the rest
         keys = sorted(hists)
         pred = [k for k in keys if any(hists[k][1])]
         rest = [k for k in keys if not any(hists[k][1])]
-        keep_pred = rng.sample(pred, min(len(pred), 4000))
-        keep = set(keep_pred) | set(rng.sample(rest, min(len(rest), 9000)))
+        keep_pred = rng.sample(pred, min(len(pred), 1500))
+        keep = set(keep_pred) | set(rng.sample(rest, min(len(rest), 2500)))
         hists = {k: hists[k] for k in keys if k in keep}
     # -- 3. replay on real grids (with crossing faces under both seam positions)
     pool = []
@@ -447,7 +454,11 @@ def part_history(ctx, rng, ents, gen, cases):
             for ev in hists[k][0]:
                 if ev["act"] != "Edit" and (m, X.ref_key(ev)) not in refs:
                     refs[(m, X.ref_key(ev))] = X.fresh_reference(e, ev)
+    import time
+
+    t0 = time.time()
     res = pmap(X.replay_trace, jobs)
+    ctx.note("t_history_replay_s", round(time.time() - t0, 1))
     cls = {}
 
     def cid(d):
@@ -486,11 +497,10 @@ def part_history(ctx, rng, ents, gen, cases):
     by_id = {j["id"]: j for j in jobs}
     tr_of = {t["id"]: t for t in res}
     n_fail = 0
-    for _, tid, q, clause, predicted, knobs in verdicts:
+    for _, tid, q, clause, expl in verdicts:
         job = by_id[tid]
         ev = job["events"][q - 1]
         kind = "edit" if ev["act"] == "Edit" else X.kind_of(ev["act"])
-        expl = "+".join(sorted(knobs)) if knobs else ("several" if predicted else "unexplained")
         n_fail += 1
         ctx.violation("hist:" + hist_key(job["events"][:q]), clause,
                       detail={"step": q, "explained_by": expl, "mesh": catalog.eid(pool[job["mesh"]]), "errors": [s["err"] for s in tr_of[tid]["steps"][:q]]},
@@ -515,4 +525,21 @@ def run(ctx):
     X.hux.import_ux()
     ents, gen, cases = part_static(ctx, rng)
     part_history(ctx, rng, ents, gen, cases)
-    ctx.rule = "wip"
+    ctx.rule = (
+        "Part 1: TLC (PolyGen.tla) checks the laws of the exact crossing definition (PolyCases.tla) on catalogue meshes x seam position x "
+        "seam-node signs and emits the cases; each case is converted on fresh real grids under every periodic_elements x engine x projection x "
+        "project option with tracer data, every exported vertex is matched to a node id (float32 tolerance, cartopy applied by the harness to the "
+        "exact corners) and TLC (JudgePoly.tla) judges every record.  Part 2: TLC model-checks the cache machine PlotCache(MechIntended), emits "
+        "all histories of the tier's bound from PlotCache(MechObserved) with predicted failures; each history is replayed step by step on a real "
+        "grid, all returned objects re-projected after every step, and TLC (TracePlot.tla) validates the trace against the ideal and explains "
+        "failures by mechanism knobs.  Non-trivial = a conversion record, or a history of >= 2 steps (distinct argument sequences)."
+    )
+    ctx.exhaustive = False
+    ctx.assumptions += [
+        "TLC's evaluator and the CommunityModules Json reader",
+        "cartopy's transform_points is trusted as a function (expected coordinates are cartopy applied to the exact corners); what is checked is its use",
+        "vertex -> node id matching with 4 * 2^-23 relative tolerance (float32 shells), longitudes modulo 360; +180/-180 of a seam node is an input",
+        "history part compares bitwise digests with what a fresh grid returns for the same arguments (same code, same process configuration)",
+        "split + projection is documented as unsupported (ValueError) and is not judged; meshes with a pole corner or a tie edge are excluded by the specification",
+        "the SplitAreaCovers clause and the choice of area formula inputs are numeric (harness), every other verdict is TLC's",
+    ]
